@@ -181,3 +181,31 @@ pub mod syncer {
         n
     }
 }
+
+// `async unsafe fn`: the delegating method still awaits the original's future (fn, module, impl block)
+#[entrait(RAsyncUnsafe)]
+async unsafe fn r_async_unsafe<D>(deps: &D, v: &[u8]) -> u8 {
+    *v.get_unchecked(0)
+}
+#[entrait(RAsyncUnsafeNoSend, ?Send)]
+async unsafe fn r_async_unsafe_no_send<D>(deps: &D, v: Rc<u8>) -> &str {
+    "x"
+}
+#[entrait(pub RAsyncUnsafeMod)]
+pub mod r_async_unsafe_mod {
+    pub async unsafe fn first<D>(deps: &D, a: u8) -> u8 {
+        a
+    }
+    pub async unsafe fn unit<D>(deps: &D) {}
+}
+#[entrait(RAsyncUnsafeImplT, delegate_by = DelegateRAsyncUnsafe)]
+pub trait RAsyncUnsafeT {
+    async unsafe fn get(&self, a: u8) -> u8;
+}
+pub struct RAsyncUnsafeX;
+#[entrait]
+impl RAsyncUnsafeImplT for RAsyncUnsafeX {
+    pub async unsafe fn get<D>(deps: &D, a: u8) -> u8 {
+        a
+    }
+}
